@@ -14,10 +14,10 @@ def check(repo, rep, tier):
                        'that receives source text must have a lexical class inside the Python class its position needs (DFA '
                        'inclusion: decimal integers, ASCII identifiers minus reserved words); nesting depth is bounded or '
                        'checked. What the loaded functions compute is C01.')
-    re_.rule_emitted_text_parses(cm, rep, 'C11.T1')
-    rc.rule_exhaustive(cm, rep, 'C11.T1x')
-    re_.rule_numerals(cm, rep, 'C11.L1')
-    re_.rule_quote_or_class(cm, rep, 'C11.L2')
-    re_.rule_program_keys(cm, rep, 'C11.F1')
-    rq.rule_key_templates(em, rep, 'C11.F1k')
-    re_.rule_nesting_bound(cm, rep, 'C11.N1')
+    rep.run(re_.rule_emitted_text_parses, cm, rep, 'C11.T1')
+    rep.run(rc.rule_exhaustive, cm, rep, 'C11.T1x')
+    rep.run(re_.rule_numerals, cm, rep, 'C11.L1')
+    rep.run(re_.rule_quote_or_class, cm, rep, 'C11.L2')
+    rep.run(re_.rule_program_keys, cm, rep, 'C11.F1')
+    rep.run(rq.rule_key_templates, em, rep, 'C11.F1k')
+    rep.run(re_.rule_nesting_bound, cm, rep, 'C11.N1')
